@@ -1595,9 +1595,33 @@ def library_framing(ctx, report):
         if f.module.external or not f.module.relpath.startswith('cryptoparser/tls/ldap.py'):
             continue
         loads = [c for c in ast.walk(f.node) if isinstance(c, ast.Call) and isinstance(c.func, ast.Attribute) and c.func.attr == 'load' and
-                 c.args and 'parsable' in ast.unparse(c.args[0])]
+                 c.args and not isinstance(c.func.value, ast.Name) or
+                 isinstance(c, ast.Call) and isinstance(c.func, ast.Attribute) and c.func.attr == 'load' and c.args and
+                 isinstance(c.func.value, ast.Name) and c.func.value.id not in ('json', 'pickle')]
         for ld in loads:
             n += 1
+            # the decoder's ``strict`` flag means "raise when bytes follow the value" (sa/external.json): the message would parse only
+            # when the buffer ends where it ends, which a framing unit must not depend on
+            strict = None
+            for k in ld.keywords:
+                if k.arg == 'strict':
+                    strict = k.value
+                elif k.arg is None:
+                    v = f.cls.resolve_var(ast.unparse(k.value).split('.')[-1]) if f.cls is not None and isinstance(k.value, ast.Attribute) else None
+                    node = getattr(v, 'node', v)
+                    if isinstance(node, ast.Dict):
+                        for kk, vv in zip(node.keys, node.values):
+                            if isinstance(kk, ast.Constant) and kk.value == 'strict':
+                                strict = vv
+                    elif node is None or not isinstance(node, ast.Dict):
+                        strict = k.value        # not a table of the source: the flag cannot be excluded
+            if len(ld.args) > 1:
+                strict = ld.args[1]
+            report.count('C03.R10')
+            if strict is not None and not (isinstance(strict, ast.Constant) and strict.value in (False, None)):
+                report.add('C03.R10', f.construct + '@strict-decoder',
+                           'the library decoder is called with strict=%s: it then raises when bytes follow the value, so the message parses only when '
+                           'the buffer ends with it - the result depends on what comes after the frame' % ast.unparse(strict)[:30])
             if f.qualname in decided_by_evaluation:
                 continue
             report.count('C03.R10')
